@@ -111,6 +111,8 @@ struct GenCfg {
   bool inline_insn = true;   // use `inline` as well as `call`
   bool multi_module = false; // spread functions over modules with import/export
   int min_funcs = 1;
+  bool ext_chains = false;     // pairs of dependent [u]ext insns
+  bool fp_mem_no_base_index = false;
   bool single_item_sections = false;
   bool passive_data = false;   // data sections (named head + anonymous members) that no code refers to
   bool blk_args = true;        // block (by value aggregate) arguments
@@ -214,6 +216,8 @@ struct ProgGen {
     int sz = type_size (type);
     int lim = store ? 192 : MM_BUF_SIZE;  // exclusive end of the allowed zone
     int form = cs.weighted ({5, 3, 3, cfg.abs_mem ? 2 : 0, cfg.abs_mem ? 1 : 0});
+    // F62: base + index addressing of an FP operand can need three integer reload registers
+    if (cfg.fp_mem_no_base_index && (type == MIR_T_F || type == MIR_T_D) && (form == 1 || form == 2)) form = 0;
     Op o;
     // allocas: only the initialised first 16 bytes, base+disp form
     if (!allocas.empty () && cs.chance (50) && sz <= 8) {
@@ -338,7 +342,15 @@ struct ProgGen {
       int op = ops[cs.range (0, 8)];
       if (op == MIR_MOV || op == MIR_NEG) f->add (op, {int_dst (false), int_src64 ()});
       else if (op == MIR_NEGS) f->add (op, {int_dst (true), int_src32 ()});
-      else f->add (op, {int_dst (false), int_src32 ()});
+      else if (cfg.ext_chains && cs.chance (128)) {  // an extension of an extension, usually narrow then wider; the result is stored
+        static const int narrow[] = {MIR_EXT8, MIR_UEXT8, MIR_EXT16, MIR_UEXT16}, wider[] = {MIR_UEXT16, MIR_EXT16, MIR_UEXT32, MIR_EXT32};
+        int r1 = pick (w64), r2 = pick (w64);
+        bool ordered = cs.chance (200);
+        f->add (ordered ? narrow[cs.range (0, 3)] : op, {Op::R (r1), int_src32 ()});
+        f->add (ordered ? wider[cs.range (0, 3)] : ops[cs.range (1, 6)], {Op::R (r2), Op::R (r1)});
+        f->add (MIR_MOV, {Op::M (MIR_T_I64, (int64_t) (cs.range (0, 22) * 8), r_buf), Op::R (r2)});
+      } else
+        f->add (op, {int_dst (false), int_src32 ()});
       break;
     }
     case 3: {  // FP arithmetic
